@@ -25,6 +25,11 @@ pub enum Chain {
     /// a user-defined adapter that passes this many items and then fails (harness-defined,
     /// public Adapter trait)
     FailAfter(usize),
+    /// [PagedResults, EntriesOnly]: the pager outermost (the reverse of the documented order)
+    PagedEntries(i32),
+    /// a user-defined adapter that, when the call up the chain fails, looks at the stream's
+    /// state and calls next() on it once more before reporting the failure
+    Probe,
 }
 
 #[derive(Clone, Debug, Serialize, Deserialize, PartialEq, Eq, Hash, PartialOrd, Ord)]
@@ -77,6 +82,8 @@ pub enum CookieStyle {
     Constant,
     /// first page is empty but carries a cookie
     EmptyFirst,
+    /// cookies whose last two octets are 04 00 (look like an empty OCTET STRING element)
+    TailLooksEmpty,
 }
 
 #[derive(Clone, Debug, Serialize, Deserialize, PartialEq, Eq)]
@@ -94,6 +101,13 @@ pub struct Plan {
     /// paged searches: after this many pages the server goes silent (0 = never)
     #[serde(default)]
     pub silent_after_pages: usize,
+    /// paged searches: every page starts with a search result reference
+    #[serde(default)]
+    pub page_refs: bool,
+    /// the final result carries a second control, and on paged searches the paging control
+    /// comes first in the list
+    #[serde(default)]
+    pub extra_res_ctrl: bool,
 }
 
 impl Default for Plan {
@@ -108,6 +122,8 @@ impl Default for Plan {
             cookie: CookieStyle::Distinct,
             silent: false,
             silent_after_pages: 0,
+            page_refs: false,
+            extra_res_ctrl: false,
         }
     }
 }
